@@ -844,4 +844,158 @@ Proof.
     + cbn [size] in *. lia.
 Qed.
 End Climb.
+
+Lemma ids_nodes t ys : incl ys (ids t) -> exists xs, ys = map nid xs /\ Forall (fun y => In y (elements t)) xs.
+Proof. induction ys as [|y ys IH]; intros H; [exists []; split; [reflexivity|constructor]|].
+  destruct IH as (xs & -> & Hx); [intros j Hj; apply H; right; exact Hj|].
+  assert (Hy : In y (ids t)) by (apply H; left; reflexivity). unfold ids in Hy. apply in_map_iff in Hy as (x & <- & Hxin).
+  exists (x :: xs). split; [reflexivity|constructor; auto]. Qed.
+Lemma getn_map_inj t : forall xs zs, Forall (fun x => getn t (nid x) = Some x) xs -> Forall (fun x => getn t (nid x) = Some x) zs ->
+  map nid xs = map nid zs -> xs = zs.
+Proof. induction xs as [|x xs IH]; intros [|z zs] Hx Hz E; try discriminate; [reflexivity|].
+  inversion Hx; subst. inversion Hz; subst. cbn [map] in E. inversion E. f_equal; [congruence|auto]. Qed.
+Lemma idinv_same s s1 : IdInv s -> root s1 = root s -> nextid s1 = nextid s -> ttid s1 = ttid s -> tids s1 = tids s -> IdInv s1.
+Proof. unfold IdInv. intros H -> -> -> ->. exact H. Qed.
+Lemma clean_same s s1 : Clean s -> root s1 = root s -> ttid s1 = ttid s -> tids s1 = tids s -> Clean s1.
+Proof. unfold Clean. intros H -> -> ->. exact H. Qed.
+
+(* the calls of getnext that continue from a node x of the table whose parent links are in place *)
+Lemma cont_run s1 x tid : NoDup (ids (root s1)) -> In x (elements (root s1)) -> plink (nexts s1) (root s1) (nid x) ->
+  (forall ri, rootid (root s1) = Some ri -> PM.find ri (nexts s1) = None) ->
+  exists xs, Forall (fun y => In y (elements (root s1))) xs /\ length xs <= size (root s1) /\
+    ((forall j, In j (ids (root s1)) -> tid_of (tids s1) j <> tid) -> Permutation xs (elements (root s1))) /\
+    forall n, exists s', walk_n n s1 (tid, Some (nid x)) [] = Ok (s', map kv (firstn n xs), Nat.ltb (length xs) n).
+Proof. intros Hnd Hx P Hroot. destruct (root s1) as [|c l r0 r] eqn:R; [destruct Hx|].
+  set (m0 := mkMst (Some (nid x)) (tids s1) (nexts s1)).
+  destruct (climb_run (T c l r0 r) tid (T c l r0 r) m0 (nid x) (nid r0) P eq_refl (lookup_sub _ Hnd) Hnd eq_refl)
+    as (N & m' & ys & Hrun & Hc & _ & Hincl & Hlen & Hperm & _ & _ & HN).
+  cbn [mnexts m0] in Hc. rewrite (Hroot _ eq_refl) in Hc.
+  destruct (ids_nodes _ _ Hincl) as (xs & -> & Hxs).
+  assert (Hg : Forall (fun y => getn (T c l r0 r) (nid y) = Some y) xs).
+  { eapply Forall_impl; [|exact Hxs]. intros y Hy. apply getn_elem; auto. }
+  exists xs. split; [exact Hxs|]. rewrite map_length in Hlen. split; [exact Hlen|]. split.
+  - intros Hcl. assert (Hp : Permutation (map nid xs) (ids (T c l r0 r))).
+    { apply Hperm. intros j Hj. unfold st. cbn [mtids m0]. apply N.eqb_neq. apply Hcl. exact Hj. }
+    unfold ids in Hp. apply Permutation_map_inv in Hp as (zs & E & Hp).
+    assert (Hz : Forall (fun y => getn (T c l r0 r) (nid y) = Some y) zs).
+    { apply Forall_forall. intros y Hy. apply getn_elem; auto. eapply Permutation_in; [apply Permutation_sym; exact Hp|exact Hy]. }
+    rewrite (getn_map_inj _ _ _ Hg Hz E). apply Permutation_sym. exact Hp.
+  - intros n. destruct (walk_n_run xs n s1 tid (nid x) [] m' N) as (s' & Hw).
+    + rewrite R. exact Hrun.
+    + exact Hc.
+    + unfold gn_fuel. rewrite R. lia.
+    + rewrite R. exact Hg.
+    + exists s'. exact Hw.
+Qed.
+
+(* C04: after a nearest-key search in a table in which no node carries the current stamp, getnext visits every entry exactly once *)
+Theorem nearest_continue s k n s1 c e : Inv s -> IdInv s -> Clean s -> qnearest kcmp s k = Ok (s1, c, Some e) ->
+  exists xs s', Permutation xs (abs s) /\ walk_n n s1 c [] = Ok (s', firstn n xs, Nat.ltb (length (abs s)) n) /\
+    root s' = root s /\ num s' = num s /\ nextid s' = nextid s /\ Inv s' /\ IdInv s' /\ (Nat.ltb (length (abs s)) n = true -> Clean s').
+Proof. intros HInv HI HC Hq. destruct k as [|k0 k]; [rewrite nearest_empty_key in Hq; discriminate|].
+  destruct (nearest_floor s (k0 :: k) HInv HI ltac:(discriminate)) as (s1' & c' & E & Rr & Rn & Rt & Ri & Rd & Hm).
+  rewrite E in Hq. inversion Hq; subst s1' c'. rewrite H2 in Hm. destruct Hm as (x & Hx & -> & -> & P & Hroot).
+  pose proof HI as (Hnd & _). rewrite <- Rr in Hnd, Hx, P, Hroot.
+  destruct (cont_run s1 x (ttid s) Hnd Hx P Hroot) as (xs & Hxs & Hlen & Hperm & Hw).
+  assert (Hp : Permutation xs (elements (root s))).
+  { rewrite <- Rr. apply Hperm. intros j Hj. rewrite Rd. apply HC. rewrite <- Rr. exact Hj. }
+  destruct (Hw n) as (s' & Hwn). exists (map kv xs), s'. split; [apply Permutation_map; exact Hp|].
+  assert (HI1 : IdInv s1) by (eapply idinv_same; eauto).
+  destruct (walk_n_inv _ _ _ _ _ _ _ Hwn HI1 ltac:(intros _; cbn [fst]; congruence)) as (A & B & C & D & F).
+  rewrite firstn_map. unfold abs at 1 2. rewrite map_length, <- (Permutation_length Hp).
+  split; [exact Hwn|]. split; [congruence|]. split; [congruence|]. split; [congruence|]. split; [eapply Inv_same; [| |exact HInv]; congruence|].
+  split; [exact A|exact F].
+Qed.
+
+(* ---- histories ---- *)
+Lemma nearest_step s d k n : Inv s -> IdInv s -> (d = false -> Clean s) ->
+  exists s' ob d', step kcmp s (Nearest k n) = Ok (s', ob) /\ Inv s' /\ IdInv s' /\ (d' = false -> Clean s') /\
+    fst (sstep kcmp (abs s, d) (Nearest k n)) = (abs s', d') /\ obs_ok ob (snd (sstep kcmp (abs s, d) (Nearest k n))).
+Proof. intros HInv HI HC. cbn [step sstep]. destruct k as [|k0 k].
+  { rewrite nearest_empty_key. cbn [bind]. exists s, (ONear None [] true), d. split; [reflexivity|]. split; [exact HInv|]. split; [exact HI|]. split; [exact HC|]. split; [reflexivity|]. cbn. auto. }
+  set (key := k0 :: k).
+  destruct (nearest_floor s key HInv HI ltac:(discriminate)) as (s1 & c & E & Rr & Rn & Rt & Ri & Rd & Hm).
+  rewrite E. cbn [bind].
+  assert (HI1 : IdInv s1) by (eapply idinv_same; eauto).
+  assert (HInv1 : Inv s1) by (eapply Inv_same; eauto).
+  assert (Habs : abs s1 = abs s) by (unfold abs; rewrite Rr; reflexivity).
+  destruct (snearest kcmp key (abs s)) as [e|] eqn:SN.
+  - destruct Hm as (x & Hx & -> & -> & P & Hroot).
+    pose proof HI as (Hnd & _). rewrite <- Rr in Hnd, Hx, P, Hroot.
+    destruct (cont_run s1 x (ttid s) Hnd Hx P Hroot) as (xs & Hxs & Hlen & Hperm & Hw).
+    destruct (Hw n) as (s' & Hwn). rewrite Hwn. cbn [bind].
+    destruct (walk_n_inv _ _ _ _ _ _ _ Hwn HI1 ltac:(intros _; cbn [fst]; congruence)) as (A & B & C & D & F).
+    assert (Hsz : size (root s1) = length (abs s)) by (unfold abs; rewrite map_length, <- Rr; apply size_elements).
+    exists s', (ONear (Some (kv x)) (map kv (firstn n xs)) (Nat.ltb (length xs) n)), (walked (abs s) n d).
+    split; [reflexivity|]. split; [eapply Inv_same; [| |exact HInv1]; congruence|]. split; [exact A|]. split; [|split].
+    + unfold walked. destruct n as [|n].
+      * intros Hd. cbn [walk_n] in Hwn. inversion Hwn; subst s'. eapply clean_same; [apply HC; exact Hd| | |]; auto.
+      * destruct (Nat.ltb (length (abs s)) (S n)) eqn:L; [|discriminate]. intros _. apply F. apply Nat.ltb_lt. apply Nat.ltb_lt in L. lia.
+    + cbn [fst]. f_equal. unfold abs. rewrite B, Rr. reflexivity.
+    + cbn [snd obs_ok]. split; [reflexivity|]. intros Hsp. apply negb_true_iff in Hsp.
+      assert (Hp : Permutation xs (elements (root s))).
+      { rewrite <- Rr. apply Hperm. intros j Hj. rewrite Rd. apply (HC Hsp). rewrite <- Rr. exact Hj. }
+      assert (Hl : length xs = length (abs s)) by (unfold abs; rewrite map_length; apply Permutation_length; exact Hp).
+      rewrite map_length, firstn_length, Hl. split; reflexivity.
+  - destruct Hm as (-> & Hre). exists s1, (ONear None [] true), d. split; [reflexivity|]. split; [exact HInv1|]. split; [exact HI1|].
+    split; [intros Hd; eapply clean_same; [apply HC; exact Hd| | |]; auto|]. split; [cbn [fst]; rewrite Habs; reflexivity|]. cbn. auto.
+Qed.
+
+Lemma walk_step s d n : Inv s -> IdInv s -> (d = false -> Clean s) ->
+  exists s' ob d', step kcmp s (Walk n) = Ok (s', ob) /\ Inv s' /\ IdInv s' /\ (d' = false -> Clean s') /\
+    fst (sstep kcmp (abs s, d) (Walk n)) = (abs s', d') /\ obs_ok ob (snd (sstep kcmp (abs s, d) (Walk n))).
+Proof. intros HInv HI HC. cbn [step sstep].
+  destruct (fresh_walk_seq s n HInv HI) as (s' & Hw & B & C & D & HInv' & HI' & F & H0). rewrite Hw. cbn [bind].
+  assert (Habs : abs s' = abs s) by (unfold abs; rewrite B; reflexivity).
+  exists s', (OWalk (firstn n (abs s)) (Nat.ltb (length (abs s)) n)), (match abs s with [] => d | _ => walked (abs s) n d end).
+  split; [reflexivity|]. split; [exact HInv'|]. split; [exact HI'|]. split; [|split].
+  - destruct (abs s) as [|a m] eqn:Em.
+    + intros _ j Hj. exfalso. unfold abs in Em. rewrite <- B in Em. unfold ids in Hj. apply map_eq_nil in Em. rewrite Em in Hj. destruct Hj.
+    + unfold walked. destruct n as [|n]; [intros Hd; rewrite (H0 eq_refl); auto|].
+      destruct (Nat.ltb (length (a :: m)) (S n)) eqn:L; [|discriminate]. intros _. apply F. reflexivity.
+  - cbn [fst]. rewrite Habs. reflexivity.
+  - cbn. auto.
+Qed.
+
+Lemma map_step_idinv s o s' ob : is_map_op o = true -> step kcmp s o = Ok (s', ob) -> Inv s -> IdInv s ->
+  IdInv s' /\ (Clean s -> Clean s') /\ (o = Clear -> Clean s').
+Proof. intros Hm H HInv HI. destruct o as [k v|k|k| | | | |n|k n]; try discriminate; cbn [step] in H.
+  - apply bind_ok in H as ([s2 b] & Hp & H). inversion H; subst. cbn [fst]. destruct (put_idinv _ _ _ _ _ Hp HInv HI) as (A & B). split; [exact A|split; [exact B|discriminate]].
+  - inversion H; subst. split; [exact HI|split; [auto|discriminate]].
+  - apply bind_ok in H as ([s2 b] & Hp & H). inversion H; subst. cbn [fst]. destruct (remove_idinv _ _ _ _ Hp HI) as (A & B). split; [exact A|split; [exact B|discriminate]].
+  - inversion H; subst. destruct HI as (_ & _ & Ht & Hle & Hf). split; [|split; intros _ j []].
+    unfold IdInv, qclear. cbn [root nextid ttid tids ids elements map]. split; [constructor|]. split; [intros j []|]. auto.
+  - inversion H; subst. split; [exact HI|split; [auto|discriminate]].
+  - inversion H; subst. split; [exact HI|split; [auto|discriminate]].
+  - inversion H; subst. split; [exact HI|split; [auto|discriminate]].
+Qed.
+
+Lemma step_refines s d o : Inv s -> IdInv s -> (d = false -> Clean s) ->
+  exists s' ob d', step kcmp s o = Ok (s', ob) /\ Inv s' /\ IdInv s' /\ (d' = false -> Clean s') /\
+    fst (sstep kcmp (abs s, d) o) = (abs s', d') /\ obs_ok ob (snd (sstep kcmp (abs s, d) o)).
+Proof. intros HInv HI HC. destruct (is_map_op o) eqn:Hm.
+  - destruct (step_map_refines kcmp kcmp_trans kcmp_antisym kcmp_eq_l s d o HInv Hm) as (s' & ob & d' & E & HInv' & Ha & Hob).
+    destruct (map_step_idinv _ _ _ _ Hm E HInv HI) as (HI' & HC' & HCl).
+    exists s', ob, d'. split; [exact E|]. split; [exact HInv'|]. split; [exact HI'|]. split; [|split; [exact Ha|exact Hob]].
+    intros Hd. destruct o as [k v|k|k| | | | |n|k n]; try discriminate; cbn [sstep fst] in Ha; try (inversion Ha; subst d'; auto; fail).
+    destruct k; cbn [fst] in Ha; inversion Ha; subst d'; auto.
+  - destruct o as [k v|k|k| | | | |n|k n]; try discriminate; [apply walk_step|apply nearest_step]; auto.
+Qed.
+
+Theorem run_refines : forall os s d, Inv s -> IdInv s -> (d = false -> Clean s) ->
+  exists s' obs d', run kcmp s os = Ok (s', obs) /\ Inv s' /\ IdInv s' /\ (d' = false -> Clean s') /\
+    fst (srun kcmp (abs s, d) os) = (abs s', d') /\ Forall2 obs_ok obs (snd (srun kcmp (abs s, d) os)).
+Proof. induction os as [|o os IH]; intros s d HInv HI HC.
+  - exists s, [], d. split; [reflexivity|]. split; [exact HInv|]. split; [exact HI|]. split; [exact HC|]. split; [reflexivity|]. constructor.
+  - destruct (step_refines s d o HInv HI HC) as (s1 & ob & d1 & E1 & HInv1 & HI1 & HC1 & Ha1 & Hob).
+    destruct (IH s1 d1 HInv1 HI1 HC1) as (s2 & obs & d2 & E2 & HInv2 & HI2 & HC2 & Ha2 & Hobs).
+    cbn [run srun]. rewrite E1. cbn [bind fst snd]. rewrite E2. cbn [bind fst snd].
+    destruct (sstep kcmp (abs s, d) o) as [st1 sb] eqn:Es. cbn [fst snd] in Ha1, Hob. subst st1.
+    destruct (srun kcmp (abs s1, d1) os) as [st2 sbs] eqn:Er. cbn [fst snd] in *.
+    exists s2, (ob :: obs), d2. split; [reflexivity|]. split; [exact HInv2|]. split; [exact HI2|]. split; [exact HC2|]. split; [exact Ha2|]. constructor; assumption.
+Qed.
+
+Theorem run_init_refines os : exists s obs d, run kcmp init os = Ok (s, obs) /\ Inv s /\ IdInv s /\ (d = false -> Clean s) /\
+  fst (srun kcmp sinit os) = (abs s, d) /\ Forall2 obs_ok obs (snd (srun kcmp sinit os)).
+Proof. apply (run_refines os init false (Inv_init kcmp) IdInv_init (fun _ => Clean_init)). Qed.
 End Iter.
